@@ -446,7 +446,7 @@ fn windows(now: u32) -> [(u32, u32); 3] {
     ]
 }
 
-fn build_zone(apex: &str, content: Vec<LRec>, skey: Option<(Arc<SKey>, Vec<u8>)>, denial: Denial, now: u32, decoys: &[Vec<u8>]) -> Zone {
+fn build_zone(apex: &str, content: Vec<LRec>, skey: Option<(Arc<SKey>, Vec<u8>)>, denial: Denial, now: u32, decoys: &[Vec<u8>], dnskey_signer: Option<&Arc<SKey>>) -> Zone {
     let apexl = nm(apex);
     let mut z = Zone {
         apex: apexl.clone(),
@@ -512,7 +512,7 @@ fn build_zone(apex: &str, content: Vec<LRec>, skey: Option<(Arc<SKey>, Vec<u8>)>
                 // (other keys of the zone, which do not sign, are listed BEFORE the signing key)
                 let mut keyset: Vec<Vec<u8>> = decoys.to_vec();
                 keyset.push(dnskey_rd.clone());
-                let sig = sign_set(sk, &apexl, T_DNSKEY, 3600, &keyset, *inc, *exp);
+                let sig = sign_set(dnskey_signer.unwrap_or(sk), &apexl, T_DNSKEY, 3600, &keyset, *inc, *exp);
                 z.sigs.entry((key(&apexl), T_DNSKEY)).or_insert_with(Default::default)[w].push(sig);
             }
             let mut keyset: Vec<Vec<u8>> = decoys.to_vec();
@@ -570,7 +570,7 @@ struct Hier {
     decoy: bool,
 }
 
-#[derive(Clone, Copy)]
+#[derive(Clone)]
 struct Spec {
     name: &'static str,
     kind: Kind,
@@ -580,6 +580,13 @@ struct Spec {
     decoy: bool,
     /// additional secure zones evil.tld. (sibling), a.b.tld. and x.b.tld. (below the empty non-terminal b.tld.)
     extra: bool,
+    /// denial of zone.tld. if it differs from the rest of the hierarchy (zone re-signed with other parameters)
+    zone_denial: Option<Denial>,
+    /// zone.tld. content changed: nx.zone.tld. A and www.zone.tld. TXT added, mail.zone.tld. removed
+    records_changed: bool,
+    /// a second key Z published in zone.tld.'s DNSKEY RRset (which the DS-referenced key K keeps signing);
+    /// the bool says whether Z (true) or K (false) signs the zone data
+    zsk: Option<(Arc<SKey>, Vec<u8>, bool)>,
 }
 
 /// A fresh ECDSAP256SHA256 key for `apex`.
@@ -591,7 +598,7 @@ fn gen_key(apex: &str) -> (Arc<SKey>, Vec<u8>) {
 }
 
 fn build_hier(spec: Spec, now: u32) -> Hier {
-    let Spec { name, kind, nsec3, opt_out, decoy, extra } = spec;
+    let Spec { name, kind, nsec3, opt_out, decoy, extra, zone_denial, records_changed, zsk } = spec;
     let (k_root, rd_root, ta) = load_key("008+60616", &nm("."));
     let (k_tld, rd_tld, _) = load_key("010+46731", &nm("tld."));
     let (k_zone, rd_zone, _) = load_key("013+42253", &nm("zone.tld."));
@@ -623,7 +630,7 @@ fn build_hier(spec: Spec, now: u32) -> Hier {
     if kind == Kind::Secure {
         tld.push(r_raw("zone.tld.", T_DS, ds_rdata(&nm("zone.tld."), &rd_zone)));
     }
-    let zone = vec![
+    let mut zone = vec![
         r_soa("zone.tld."),
         r_ns("zone.tld.", "ns.zone.tld."),
         r_a("zone.tld.", 10),
@@ -637,8 +644,13 @@ fn build_hier(spec: Spec, now: u32) -> Hier {
         r_cname("cn.zone.tld.", "www.zone.tld."),
         r_cname("ext.zone.tld.", "www.tld."),
         r_cname("*.wc.zone.tld.", "www.zone.tld."),
-        r_mx("mail.zone.tld.", "www.zone.tld."),
     ];
+    if records_changed {
+        zone.push(r_a("nx.zone.tld.", 50));
+        zone.push(r_txt("www.zone.tld.", "now it has one"));
+    } else {
+        zone.push(r_mx("mail.zone.tld.", "www.zone.tld."));
+    }
     // attacker key with colliding key tag (same algorithm): the flags field
     // is chosen such that the tag matches; the ZONE bit must stay set.
     let mut forged = None;
@@ -683,15 +695,19 @@ fn build_hier(spec: Spec, now: u32) -> Hier {
             tld.push(r_ns(apex, &format!("ns.{apex}")));
             tld.push(r_raw(apex, T_DS, ds_rdata(&nm(apex), &rd)));
             let content = vec![r_soa(apex), r_ns(apex, &format!("ns.{apex}")), r_a(&format!("ns.{apex}"), d), r_a(&format!("www.{apex}"), d + 10)];
-            extra_zones.push(build_zone(apex, content, Some((k, rd)), Denial::Nsec, now, &[]));
+            extra_zones.push(build_zone(apex, content, Some((k, rd)), Denial::Nsec, now, &[], None));
         }
     }
     let decoys: Vec<Vec<u8>> = if decoy { vec![forged.as_ref().expect("decoy needs the colliding key").1.clone()] } else { vec![] };
-    let zroot = build_zone(".", root, Some((k_root, rd_root)), den(&[], 0, false), now, &[]);
-    let ztld = build_zone("tld.", tld, Some((k_tld, rd_tld)), den(&[0xAA, 0xBB], 1, opt_out), now, &[]);
-    let zzone = match kind {
-        Kind::Secure => build_zone("zone.tld.", zone, Some((k_zone, rd_zone.clone())), den(&[0x01], 2, false), now, &decoys),
-        Kind::InsecureChild => build_zone("zone.tld.", zone, None, Denial::None, now, &[]),
+    let zroot = build_zone(".", root, Some((k_root, rd_root)), den(&[], 0, false), now, &[], None);
+    let ztld = build_zone("tld.", tld, Some((k_tld, rd_tld)), den(&[0xAA, 0xBB], 1, opt_out), now, &[], None);
+    let zden = zone_denial.unwrap_or_else(|| den(&[0x01], 2, false));
+    let zzone = match (kind, zsk) {
+        (Kind::InsecureChild, _) => build_zone("zone.tld.", zone, None, Denial::None, now, &[], None),
+        (Kind::Secure, None) => build_zone("zone.tld.", zone, Some((k_zone, rd_zone.clone())), zden, now, &decoys, None),
+        // K (DS-referenced) signs the DNSKEY RRset {K, Z}; the zone data is signed by K or by Z
+        (Kind::Secure, Some((_, zrd, false))) => build_zone("zone.tld.", zone, Some((k_zone, rd_zone.clone())), zden, now, &[zrd], None),
+        (Kind::Secure, Some((zk, zrd, true))) => build_zone("zone.tld.", zone, Some((zk, zrd)), zden, now, &[rd_zone.clone()], Some(&k_zone)),
     };
     let h = Hier {
         name,
@@ -1215,6 +1231,8 @@ struct Upstream {
     st: Arc<UpState>,
     /// the wrapper used as the transport of net::client::validator::Connection: answers the main query
     main: bool,
+    /// AD bit of the main answer as the (lying or validating) upstream sends it
+    main_ad: bool,
 }
 
 impl Upstream {
@@ -1231,7 +1249,10 @@ impl Upstream {
             self.st.altered.fetch_add(1, AO::Relaxed);
             return Err(ReqError::ConnectionClosed);
         }
-        let bytes = resp.encode();
+        let mut bytes = resp.encode();
+        if self.main && self.main_ad && bytes.len() > 3 {
+            bytes[3] |= 0x20;
+        }
         if bytes != clean {
             self.st.altered.fetch_add(1, AO::Relaxed);
         }
@@ -1311,8 +1332,8 @@ fn state_name(s: ValidationState) -> &'static str {
 /// One execution through `ValidationContext::validate_msg`.
 fn run_direct(h: &Arc<Hier>, q: &Query, faults: &Arc<Vec<Fault>>) -> Exec {
     let st = Arc::new(UpState::default());
-    let up = Upstream { h: h.clone(), faults: faults.clone(), st: st.clone(), main: false };
-    let mainup = Upstream { h: h.clone(), faults: faults.clone(), st: st.clone(), main: true };
+    let up = Upstream { h: h.clone(), faults: faults.clone(), st: st.clone(), main: false, main_ad: false };
+    let mainup = Upstream { h: h.clone(), faults: faults.clone(), st: st.clone(), main: true, main_ad: false };
     let mut ex = Exec { verdict: Verdict::NoMessage, ede: String::new(), out: vec![], input: vec![], calls: 0, over_budget: false, asked: vec![], altered: 0 };
     let main = mainup.respond(&q.name, q.qtype);
     let main = match main {
@@ -1349,8 +1370,8 @@ fn run_direct(h: &Arc<Hier>, q: &Query, faults: &Arc<Vec<Fault>>) -> Exec {
 /// SERVFAIL are the observations).
 fn run_conn(h: &Arc<Hier>, q: &Query, faults: &Arc<Vec<Fault>>) -> Exec {
     let st = Arc::new(UpState::default());
-    let up = Upstream { h: h.clone(), faults: faults.clone(), st: st.clone(), main: false };
-    let mainup = Upstream { h: h.clone(), faults: faults.clone(), st: st.clone(), main: true };
+    let up = Upstream { h: h.clone(), faults: faults.clone(), st: st.clone(), main: false, main_ad: false };
+    let mainup = Upstream { h: h.clone(), faults: faults.clone(), st: st.clone(), main: true, main_ad: false };
     let mut ex = Exec { verdict: Verdict::NoMessage, ede: String::new(), out: vec![], input: vec![], calls: 0, over_budget: false, asked: vec![], altered: 0 };
     let mut qr = Resp::new(&q.name, q.qtype);
     qr.rcode = 0;
@@ -1407,7 +1428,7 @@ fn run_across_expiry(h: &Arc<Hier>) -> Option<(Verdict, Verdict, u32)> {
     }
     let bytes = resp.encode();
     let st = Arc::new(UpState::default());
-    let up = Upstream { h: h.clone(), faults: Arc::new(vec![]), st, main: false };
+    let up = Upstream { h: h.clone(), faults: Arc::new(vec![]), st, main: false, main_ad: false };
     let ta = TrustAnchors::from_u8(h.ta_text.as_bytes()).expect("trust anchor");
     let vc = ValidationContext::new(ta, up);
     let once = |vc: &ValidationContext<Upstream>| {
@@ -1441,7 +1462,7 @@ fn validate_bytes(vc: &ValidationContext<Upstream>, bytes: &[u8]) -> (Verdict, V
 }
 
 fn fresh_context(h: &Arc<Hier>) -> ValidationContext<Upstream> {
-    let up = Upstream { h: h.clone(), faults: Arc::new(vec![]), st: Arc::new(UpState::default()), main: false };
+    let up = Upstream { h: h.clone(), faults: Arc::new(vec![]), st: Arc::new(UpState::default()), main: false, main_ad: false };
     ValidationContext::new(TrustAnchors::from_u8(h.ta_text.as_bytes()).expect("trust anchor"), up)
 }
 
@@ -2869,6 +2890,158 @@ fn cases_for(hiers: &[Arc<Hier>], hi: usize, q: &Query, mode: u8, pairs: u8, cou
     (out, menu)
 }
 
+// ------------------------------------------------------------ histories across zone changes
+
+/// Upstream whose authentic zone data can be exchanged between validations.
+#[derive(Clone)]
+struct HistUp {
+    cur: Arc<Mutex<Arc<Hier>>>,
+}
+
+impl SendRequest<RequestMessage<Vec<u8>>> for HistUp {
+    fn send_request(&self, req: RequestMessage<Vec<u8>>) -> Box<dyn GetResponse + Send + Sync> {
+        let q = req.to_vec().ok().and_then(|v| mc::wire::read_message(&v).ok()).and_then(|m| m.questions.first().cloned());
+        let Some(q) = q else {
+            return Box::new(Ready(Some(Err(ReqError::FormError))));
+        };
+        let h = self.cur.lock().unwrap().clone();
+        let bytes = h.answer(&q.qname, q.qtype).encode();
+        Box::new(Ready(Some(Message::from_octets(Bytes::from(bytes)).map_err(|_| ReqError::ShortMessage))))
+    }
+}
+
+/// One ValidationContext validates, in order, the authentic answer of state `steps[i].0` for query
+/// `steps[i].1`; between the validations the zone is re-signed (the upstream serves the current state).
+/// Returns the index of the first step that is not reported as an unmodified answer must be, with what
+/// was reported.
+fn run_history(states: &[Arc<Hier>], steps: &[(usize, Query)]) -> Option<(usize, Verdict, Vec<&'static str>)> {
+    let up = HistUp { cur: Arc::new(Mutex::new(states[steps[0].0].clone())) };
+    let ta = TrustAnchors::from_u8(states[0].ta_text.as_bytes()).expect("trust anchor");
+    let vc = ValidationContext::new(ta, up.clone());
+    for (i, (si, q)) in steps.iter().enumerate() {
+        let h = &states[*si];
+        *up.cur.lock().unwrap() = h.clone();
+        let bytes = h.answer(&q.name, q.qtype).encode();
+        let mut msg = Message::from_octets(bytes).expect("message");
+        let v = match guard(|| block_on(async { vc.validate_msg::<Vec<u8>, Vec<u8>>(&mut msg).await })) {
+            Ok(Ok((s, _))) => Verdict::State(state_name(s).into()),
+            Ok(Err(e)) => Verdict::Err(format!("{e}")),
+            Err(p) => Verdict::Panic(p),
+        };
+        let exp = expected_unmodified(h, q);
+        if !exp.contains(&v.short().as_str()) {
+            return Some((i, v, exp));
+        }
+        if v.secure() && !check_secure(h, msg.as_slice(), "none").is_empty() {
+            return Some((i, Verdict::Err("Secure, but the harness oracle rejects the authentic answer".into()), exp));
+        }
+    }
+    None
+}
+
+/// May state `later` follow a context whose zone.tld. node was built in state `first`?  The validator may
+/// legitimately keep the DNSKEY RRset it has validated for its TTL, so the key that signs `later` must be
+/// in the DNSKEY RRset of `first`.
+fn history_allowed(first: &Hier, later: &Hier) -> bool {
+    let z0 = &first.zones[2];
+    let z1 = &later.zones[2];
+    z0.sets.get(&(key(&z0.apex), T_DNSKEY)).map(|s| s.1.contains(&z1.dnskey)).unwrap_or(false)
+}
+
+// ------------------------------------------------------------ Connection: reply post-processing
+
+/// One request through `net::client::validator::Connection` with the given request flags; the
+/// upstream's answer carries AD = `up_ad`.  `ta`: trust anchor text (empty: no trust anchor).
+/// Returns (reply or error text, the message the upstream delivered).
+fn run_conn_flags(h: &Arc<Hier>, q: &Query, faults: &Arc<Vec<Fault>>, ta: &str, ad: bool, dok: bool, cd: bool, up_ad: bool) -> (Result<Vec<u8>, String>, Vec<u8>) {
+    let st = Arc::new(UpState::default());
+    let up = Upstream { h: h.clone(), faults: faults.clone(), st: st.clone(), main: false, main_ad: false };
+    let mainup = Upstream { h: h.clone(), faults: faults.clone(), st, main: true, main_ad: up_ad };
+    let delivered = mainup.respond(&q.name, q.qtype).map(|m| m.as_slice().to_vec()).unwrap_or_default();
+    let mut qb = Resp::new(&q.name, q.qtype).encode();
+    qb[2] = 0x01;
+    qb[3] = if ad { 0x20 } else { 0 } | if cd { 0x10 } else { 0 };
+    let tas = if ta.is_empty() { TrustAnchors::empty() } else { TrustAnchors::from_u8(ta.as_bytes()).expect("trust anchor") };
+    let r = guard(|| {
+        let vc = Arc::new(ValidationContext::new(tas, up));
+        let conn = cval::Connection::<Upstream, Vec<u8>, Upstream>::new(mainup, vc);
+        let mut req = RequestMessage::new(Message::from_octets(qb).expect("query")).expect("request");
+        if dok {
+            req.set_dnssec_ok(true);
+        }
+        let mut g = conn.send_request(req);
+        block_on(async { g.get_response().await })
+    });
+    let r = match r {
+        Ok(Ok(m)) => Ok(m.as_slice().to_vec()),
+        Ok(Err(e)) => Err(format!("error: {e}")),
+        Err(p) => Err(format!("panic: {p}")),
+    };
+    (r, delivered)
+}
+
+/// RFC 4035 3.1 / 3.2, RFC 6840 5.7-5.9 for the reply of the validating transport.
+/// `outcome`: what validate_msg says about the delivered message (the harness obtains it from an
+/// independent run); returns (what is wrong) list.
+fn check_postprocess(outcome: &str, ad: bool, dok: bool, cd: bool, reply: &[u8], delivered: &[u8]) -> Vec<String> {
+    let mut bad = vec![];
+    let (Some(rp), Some(dp)) = (parse_lenient(reply), parse_lenient(delivered)) else {
+        return vec!["reply-unreadable".into()];
+    };
+    let r_ad = reply[3] & 0x20 != 0;
+    let validated = !cd;
+    let want_ad = validated && outcome == "Secure" && (ad || dok);
+    if r_ad && !want_ad {
+        bad.push("ad-set-on-reply-that-must-not-have-it".into());
+    }
+    if !r_ad && want_ad {
+        bad.push("ad-missing-on-secure-reply".into());
+    }
+    let servfail = validated && outcome == "Bogus";
+    if servfail {
+        if rp.rcode != 2 {
+            bad.push("bogus-not-servfail".into());
+        }
+        if rp.sets.iter().any(|s| !s.is_empty()) {
+            bad.push("bogus-reply-carries-records".into());
+        }
+        return bad;
+    }
+    if rp.rcode != dp.rcode {
+        bad.push("rcode-changed".into());
+    }
+    if rp.qname != dp.qname || rp.qtype != dp.qtype {
+        bad.push("question-changed".into());
+    }
+    let dnssec = |t: u16| t == T_RRSIG || t == T_NSEC || t == T_NSEC3;
+    for s in 0..2 {
+        for ((ok, t), rds, _) in &dp.sets[s] {
+            let keep = dok || !(dnssec(*t) || *t == T_DNSKEY) || (s == 0 && *t == dp.qtype);
+            let got = rp.sets[s].iter().find(|x| x.0 == (ok.clone(), *t)).map(|x| {
+                let mut v = x.1.clone();
+                v.sort();
+                v
+            });
+            let mut want = rds.clone();
+            want.sort();
+            if keep && got.as_ref() != Some(&want) {
+                bad.push(if dnssec(*t) { "dnssec-records-lost-although-do-set".into() } else { "data-records-lost-or-changed".to_string() });
+            }
+            if !dok && dnssec(*t) && !(s == 0 && *t == dp.qtype) && got.is_some() {
+                bad.push("dnssec-records-without-do".into());
+            }
+        }
+        for ((ok, t), _, _) in &rp.sets[s] {
+            if !dp.sets[s].iter().any(|x| x.0 == (ok.clone(), *t)) {
+                bad.push("records-invented".into());
+            }
+        }
+    }
+    bad.sort();
+    bad.dedup();
+    bad
+}
+
 /// The two context-reuse cases on the hierarchy with the additional zones; reports violations, returns
 /// what was observed.
 fn reuse_specials(ctx: &Ctx, stats: &Stats, h: &Arc<Hier>, only: Option<&str>) -> Value {
@@ -2930,11 +3103,160 @@ fn reuse_specials(ctx: &Ctx, stats: &Stats, h: &Arc<Hier>, only: Option<&str>) -
     Value::Object(out)
 }
 
+/// Verdict of validate_msg for the (faulted) answer with the given trust anchor text ("" = none).
+fn verdict_with_ta(h: &Arc<Hier>, q: &Query, faults: &Arc<Vec<Fault>>, ta: &str) -> Verdict {
+    let st = Arc::new(UpState::default());
+    let up = Upstream { h: h.clone(), faults: faults.clone(), st: st.clone(), main: false, main_ad: false };
+    let mainup = Upstream { h: h.clone(), faults: faults.clone(), st, main: true, main_ad: false };
+    let Ok(m) = mainup.respond(&q.name, q.qtype) else { return Verdict::NoMessage };
+    let tas = if ta.is_empty() { TrustAnchors::empty() } else { TrustAnchors::from_u8(ta.as_bytes()).expect("trust anchor") };
+    let vc = ValidationContext::new(tas, up);
+    let mut msg = Message::from_octets(m.as_slice().to_vec()).expect("message");
+    match guard(|| block_on(async { vc.validate_msg::<Vec<u8>, Vec<u8>>(&mut msg).await })) {
+        Ok(Ok((s, _))) => Verdict::State(state_name(s).into()),
+        Ok(Err(e)) => Verdict::Err(format!("{e}")),
+        Err(p) => Verdict::Panic(p),
+    }
+}
+
+/// Which parameters of zone.tld. differ between two states.
+fn changed_dims(a: &Hier, b: &Hier) -> String {
+    let (za, zb) = (&a.zones[2], &b.zones[2]);
+    let mut d = vec![];
+    match (&za.denial, &zb.denial) {
+        (Denial::Nsec3 { salt: s1, iters: i1, .. }, Denial::Nsec3 { salt: s2, iters: i2, .. }) => {
+            if s1 != s2 {
+                d.push("nsec3-salt");
+            }
+            if i1 != i2 {
+                d.push("nsec3-iterations");
+            }
+        }
+        (Denial::Nsec, Denial::Nsec) | (Denial::None, Denial::None) => {}
+        _ => d.push("nsec-vs-nsec3"),
+    }
+    if za.names != zb.names || za.sets.keys().filter(|k| k.1 != T_NSEC && k.1 != T_NSEC3 && k.1 != 51).ne(zb.sets.keys().filter(|k| k.1 != T_NSEC && k.1 != T_NSEC3 && k.1 != 51)) {
+        d.push("records");
+    }
+    let ks = |z: &Zone| {
+        let mut v = z.sets.get(&(key(&z.apex), T_DNSKEY)).map(|s| s.1.clone()).unwrap_or_default();
+        v.sort();
+        v
+    };
+    if ks(za) != ks(zb) {
+        d.push("dnskey-rrset");
+    }
+    if za.dnskey != zb.dnskey {
+        d.push("signing-key");
+    }
+    if d.is_empty() {
+        "nothing".into()
+    } else {
+        d.join("+")
+    }
+}
+
+fn state_label(h: &Hier) -> &str {
+    h.name.split_once('-').map(|x| x.1).unwrap_or(h.name)
+}
+
+/// Run one history and report.
+fn judge_history(ctx: &Ctx, stats: &Stats, all: &[Arc<Hier>], h0: usize, steps: &[(usize, Query)], verbose: bool) {
+    let states = &all[h0..];
+    for _ in steps {
+        stats.eval();
+    }
+    stats.distinct(fnv(format!("history|{:?}", steps.iter().map(|(s, q)| (s, show(&q.name), q.qtype)).collect::<Vec<_>>()).as_bytes()));
+    let r = run_history(states, steps);
+    if verbose {
+        println!("history {:?}: {:?}", steps.iter().map(|(s, q)| format!("{} {} {}", states[*s].name, show(&q.name), tname(q.qtype))).collect::<Vec<_>>(), r);
+    }
+    let Some((i, v, exp)) = r else {
+        stats.count("history|all-steps-as-expected");
+        return;
+    };
+    let replay = json!({
+        "scenario": states[steps[0].0].name, "special": "history", "faults": [],
+        "qname": show(&steps[i].1.name), "qtype": steps[i].1.qtype,
+        "steps": steps.iter().map(|(s, q)| json!([states[*s].name, show(&q.name), q.qtype])).collect::<Vec<_>>(),
+    });
+    let cur = &states[steps[i].0];
+    let truth = cur.classify(&steps[i].1.name, steps[i].1.qtype);
+    if let Verdict::Panic(p) = &v {
+        ctx.violation(&format!("C14|validator|panic|{}", panic_sig(p)), &format!("validator panicked ({p}) in step {i} of a history with one context"), replay);
+        return;
+    }
+    if i == 0 {
+        ctx.violation(
+            &format!("C14|validator|unmodified-correctly-signed-reported-{}|state={}|answer={}", v.short(), state_label(cur), truth.short()),
+            &format!("fresh context: authentic answer for {} {} in state {} reported {v:?}, expected {exp:?}", show(&steps[0].1.name), tname(steps[0].1.qtype), cur.name),
+            replay,
+        );
+        return;
+    }
+    let prev = &states[steps[i - 1].0];
+    ctx.violation(
+        &format!("C14|validator|context-reuse|zone-re-signed|changed={}|answer={}|reported-{}", changed_dims(prev, cur), truth.short(), v.short()),
+        &format!(
+            "one ValidationContext: after validating {} the zone was re-signed ({} -> {}); the authentic answer of the new zone for {} {} is reported {v:?}, expected {exp:?}",
+            steps[..i].iter().map(|(s, q)| format!("{} {} [{}]", show(&q.name), tname(q.qtype), states[*s].name)).collect::<Vec<_>>().join(", then "),
+            prev.name,
+            cur.name,
+            show(&steps[i].1.name),
+            tname(steps[i].1.qtype)
+        ),
+        replay,
+    );
+}
+
+/// Run one Connection request with flags and report.
+fn judge_flags(ctx: &Ctx, stats: &Stats, h: &Arc<Hier>, q: &Query, faults: &Arc<Vec<Fault>>, ta: bool, flags: (bool, bool, bool, bool), verbose: bool) {
+    let (ad, dok, cd, up_ad) = flags;
+    let ta_text = if ta { h.ta_text.clone() } else { String::new() };
+    let outcome = verdict_with_ta(h, q, faults, &ta_text);
+    let Verdict::State(o) = &outcome else {
+        stats.count("connection-flags|skipped-no-validation-state");
+        return;
+    };
+    stats.eval();
+    stats.distinct(fnv(format!("flags|{}|{}|{}|{:?}|{ta}|{flags:?}", h.name, show(&q.name), q.qtype, faults).as_bytes()));
+    let (reply, delivered) = run_conn_flags(h, q, faults, &ta_text, ad, dok, cd, up_ad);
+    stats.count(&format!("connection-flags|outcome={o}"));
+    let replay = json!({"scenario": h.name, "special": "connection-flags", "qname": show(&q.name), "qtype": q.qtype, "faults": serde_json::to_value(&**faults).unwrap(),
+        "trust_anchor": ta, "request_ad": ad, "request_do": dok, "request_cd": cd, "upstream_ad": up_ad});
+    let req = format!("request-ad={}-do={}-cd={}", ad as u8, dok as u8, cd as u8);
+    match reply {
+        Err(e) if e.starts_with("panic") => {
+            ctx.violation(&format!("C14|connection|panic|{}", panic_sig(e.trim_start_matches("panic: "))), &format!("Connection panicked: {e}"), replay);
+        }
+        Err(e) => {
+            ctx.violation(&format!("C14|connection|reply-postprocessing|error-instead-of-reply|outcome={o}|{req}"), &format!("Connection returned {e} for an answer that validate_msg reports as {o}"), replay);
+        }
+        Ok(bytes) => {
+            let bad = check_postprocess(o, ad, dok, cd, &bytes, &delivered);
+            if verbose {
+                println!("connection-flags {} {} {} outcome {o} {req} upstream-ad={up_ad}: reply flags {:02x}{:02x} findings {bad:?}", h.name, show(&q.name), tname(q.qtype), bytes[2], bytes[3]);
+            }
+            // information only: RFC 4035 3.2.2 wants CD copied from the query
+            if (bytes[3] & 0x10 != 0) != cd {
+                stats.count(&format!("info|connection-reply-cd-differs-from-request-cd|outcome={o}"));
+            }
+            for b in bad {
+                ctx.violation(
+                    &format!("C14|connection|reply-postprocessing|{b}|outcome={o}|{req}"),
+                    &format!("Connection reply for {} {} (scenario {}, validate_msg says {o}; request AD={ad} DO={dok} CD={cd}; upstream AD={up_ad}): {b}; reply header flags {:02x}{:02x}", show(&q.name), tname(q.qtype), h.name, bytes[2], bytes[3]),
+                    replay.clone(),
+                );
+            }
+        }
+    }
+}
+
 fn main() {
     let ctx = Ctx::new("C14", "fault_enumeration");
     let now = std::time::SystemTime::now().duration_since(std::time::UNIX_EPOCH).unwrap().as_secs() as u32;
     let quick = ctx.quick();
-    let sp = |name, kind, nsec3, opt_out, decoy, extra| Spec { name, kind, nsec3, opt_out, decoy, extra };
+    let sp = |name, kind, nsec3, opt_out, decoy, extra| Spec { name, kind, nsec3, opt_out, decoy, extra, zone_denial: None, records_changed: false, zsk: None };
     let specs: Vec<Spec> = vec![
         sp("S1-nsec-secure", Kind::Secure, false, false, false, false),
         sp("S2-nsec3-secure", Kind::Secure, true, false, false, false),
@@ -2945,8 +3267,24 @@ fn main() {
         // only for the context-reuse cases, never fault-enumerated
         sp("SX-nsec-secure-sibling-and-shared-ent-zones", Kind::Secure, false, false, false, true),
     ];
-    let hiers: Vec<Arc<Hier>> = specs.par_iter().map(|s| Arc::new(build_hier(*s, now))).collect();
-    let sx = hiers.len() - 1;
+    let sx = specs.len() - 1;
+    // states of the SAME hierarchy after zone.tld. has been re-signed (keys of root, tld. and the DS constant)
+    let (zk, zrd) = gen_key("zone.tld.");
+    let hs = |name, zone_denial, records_changed, zsk| Spec { name, kind: Kind::Secure, nsec3: true, opt_out: false, decoy: false, extra: false, zone_denial, records_changed, zsk };
+    let n3 = |salt: u8, iters: u16| Some(Denial::Nsec3 { salt: vec![salt], iters, opt_out: false });
+    let mut specs = specs;
+    let hist0 = specs.len();
+    specs.extend(vec![
+        hs("H0-zone-nsec3-salt01-iterations2", n3(1, 2), false, None),
+        hs("H1-zone-nsec3-salt02-iterations2", n3(2, 2), false, None),
+        hs("H2-zone-nsec3-salt01-iterations3", n3(1, 3), false, None),
+        hs("H3-zone-nsec", Some(Denial::Nsec), false, None),
+        hs("H4-zone-nsec3-salt01-iterations2-records-added-and-removed", n3(1, 2), true, None),
+        hs("H5-zone-nsec-records-added-and-removed", Some(Denial::Nsec), true, None),
+        hs("H6-second-key-published-first-key-signs", n3(1, 2), false, Some((zk.clone(), zrd.clone(), false))),
+        hs("H7-second-key-published-second-key-signs", n3(1, 2), false, Some((zk, zrd, true))),
+    ]);
+    let hiers: Vec<Arc<Hier>> = specs.par_iter().map(|s| Arc::new(build_hier(s.clone(), now))).collect();
     let run = Run { ctx: ctx.clone(), stats: Stats::new(), hiers, verbose: ctx.replay.is_some() };
 
     if let Some(path) = &ctx.replay {
@@ -2964,6 +3302,23 @@ fn main() {
                 }
             }
             ctx.finish(json!({"evaluations": 2, "distinct_nontrivial": 0, "rule": "replay", "samples": [c], "exhaustive": false}), &["replay of one case"]);
+        }
+        if c["special"].as_str() == Some("history") {
+            let steps: Vec<(usize, Query)> = c["steps"]
+                .as_array()
+                .expect("steps")
+                .iter()
+                .map(|s| (run.hiers[hist0..].iter().position(|h| h.name == s[0].as_str().unwrap()).expect("state"), Query { name: unshow(s[1].as_str().unwrap()), qtype: s[2].as_u64().unwrap() as u16 }))
+                .collect();
+            judge_history(&ctx, &run.stats, &run.hiers, hist0, &steps, true);
+            ctx.finish(json!({"evaluations": run.stats.evals(), "distinct_nontrivial": 0, "rule": "replay", "samples": [c], "exhaustive": false}), &["replay of one case"]);
+        }
+        if c["special"].as_str() == Some("connection-flags") {
+            let faults: Vec<Fault> = serde_json::from_value(c["faults"].clone()).expect("faults");
+            let qq = Query { name: unshow(c["qname"].as_str().unwrap()), qtype: c["qtype"].as_u64().unwrap() as u16 };
+            let b = |k: &str| c[k].as_bool().unwrap_or(false);
+            judge_flags(&ctx, &run.stats, &run.hiers[hi], &qq, &Arc::new(faults), b("trust_anchor"), (b("request_ad"), b("request_do"), b("request_cd"), b("upstream_ad")), true);
+            ctx.finish(json!({"evaluations": run.stats.evals(), "distinct_nontrivial": 0, "rule": "replay", "samples": [c], "exhaustive": false}), &["replay of one case"]);
         }
         if let Some(sp) = c["special"].as_str() {
             let r = reuse_specials(&ctx, &run.stats, &run.hiers[hi], Some(sp));
@@ -3042,6 +3397,70 @@ fn main() {
     let h0 = run.hiers[0].clone();
     let expiry = std::thread::spawn(move || run_across_expiry(&h0));
     let reuse_json = reuse_specials(&ctx, &run.stats, &run.hiers[sx], None);
+
+    // histories: one context, the zone re-signed between the validations
+    let hq = vec![q("www.zone.tld.", T_A), q("x.w.zone.tld.", T_A), q("www.zone.tld.", T_TXT), q("nx.zone.tld.", T_A), q("b.zone.tld.", T_A), q("x.w.zone.tld.", T_MX), q("mail.zone.tld.", T_MX), q("cn.zone.tld.", T_A), q("deep.nx.zone.tld.", T_A)];
+    let ns = run.hiers.len() - hist0;
+    let mut histories: Vec<Vec<(usize, Query)>> = vec![];
+    for s0 in 0..ns {
+        for q0 in &hq {
+            for s1 in 0..ns {
+                if !history_allowed(&run.hiers[hist0 + s0], &run.hiers[hist0 + s1]) {
+                    continue;
+                }
+                for q1 in &hq {
+                    histories.push(vec![(s0, q0.clone()), (s1, q1.clone())]);
+                }
+            }
+        }
+    }
+    let n_hist2 = histories.len();
+    if !quick {
+        // three steps over the denial-parameter states and the negative answers
+        let neg = [2usize, 3, 4, 5];
+        for s0 in 0..4 {
+            for a in neg {
+                for s1 in 0..4 {
+                    for b in neg {
+                        for s2 in 0..4 {
+                            for c in neg {
+                                histories.push(vec![(s0, hq[a].clone()), (s1, hq[b].clone()), (s2, hq[c].clone())]);
+                            }
+                        }
+                    }
+                }
+            }
+        }
+    }
+    histories.par_iter().for_each(|st| judge_history(&ctx, &run.stats, &run.hiers, hist0, st, false));
+
+    // Connection reply post-processing: request flags {AD, DO, CD} x upstream AD x validation outcome
+    let mut flag_cases: Vec<(usize, Query, Arc<Vec<Fault>>, bool)> = vec![];
+    let none: Arc<Vec<Fault>> = Arc::new(vec![]);
+    for qq in &quick_queries {
+        for hi in [0usize, 1] {
+            flag_cases.push((hi, qq.clone(), none.clone(), true)); // Secure
+            flag_cases.push((hi, qq.clone(), none.clone(), false)); // Indeterminate: no trust anchor
+            // Bogus: the first RRSIG of the answer dropped
+            let resp = run.hiers[hi].answer(&qq.name, qq.qtype);
+            if let Some(e) = resp.sec.iter().flatten().find(|e| e.rr.rtype == T_RRSIG) {
+                flag_cases.push((hi, qq.clone(), Arc::new(vec![Fault { target: Target::Main, op: Op::DropSig { id: e.id } }]), true));
+            }
+        }
+        for hi in [2usize, 3] {
+            flag_cases.push((hi, qq.clone(), none.clone(), true)); // Insecure below the insecure delegation (Secure for the tld. names)
+        }
+    }
+    let mut flag_runs = vec![];
+    for (i, _) in flag_cases.iter().enumerate() {
+        for bits in 0..16u8 {
+            flag_runs.push((i, (bits & 1 != 0, bits & 2 != 0, bits & 4 != 0, bits & 8 != 0)));
+        }
+    }
+    flag_runs.par_iter().for_each(|(i, fl)| {
+        let (hi, qq, faults, ta) = &flag_cases[*i];
+        judge_flags(&ctx, &run.stats, &run.hiers[*hi], qq, faults, *ta, *fl, false);
+    });
     let cases: Vec<&Case> = planned.iter().flat_map(|p| p.0.iter()).collect();
     cases.par_iter().for_each(|c| run.run_case(c, Some(&wd)));
     // pairs, generated row by row
@@ -3110,7 +3529,7 @@ fn main() {
             "distinct_nontrivial": run.stats.distinct_count(),
             "rule": "one evaluation = one run of the real validator (validate_msg, or Connection for single faults) on a fresh ValidationContext with the oracle applied; non-trivial = a faulted case in which at least one message delivered to the validator (the validated answer or an upstream DS/DNSKEY response) differs in its octets from the authentic one; distinct by hash of (scenario, query, fault list)",
             "exhaustive": true,
-            "bound": if quick { "quick: scenarios S1,S2,S3,S3b x 17 queries: every single fault of the menu at every position (validate_msg and Connection); S6 (colliding key tag listed first) x 6 queries all single faults, 11 more baselines; CNAME owner x {NS,AAAA,MX,TXT} with the CNAME-to-NODATA replacement; direct wildcard-owner queries (baseline); every second name of the NXDOMAIN ring x every NSEC/NSEC3 swap; all pairs of representative faults (one per kind and position) for 6 queries; three context-reuse cases" } else { "thorough: 6 scenarios x 17 queries: every single fault at every position (validate_msg and Connection); CNAME-owner and wildcard-owner queries; full NXDOMAIN ring x every NSEC/NSEC3 swap; ALL pairs of single faults for all 17 queries of S1,S2,S3,S3b,S5 and pairs of representatives for S6; three context-reuse cases" },
+            "bound": if quick { "quick: scenarios S1,S2,S3,S3b x 17 queries: every single fault of the menu at every position (validate_msg and Connection); S6 (colliding key tag listed first) x 6 queries all single faults, 11 more baselines; CNAME owner x {NS,AAAA,MX,TXT} with the CNAME-to-NODATA replacement; direct wildcard-owner queries (baseline); every second name of the NXDOMAIN ring x every NSEC/NSEC3 swap; all pairs of representative faults (one per kind and position) for 6 queries; three context-reuse cases; all two-step histories of one context over 8 re-signed states of zone.tld. x 9 queries; Connection reply post-processing for request flags {AD,DO,CD} x upstream AD x 48 answers (Secure/Insecure/Bogus/Indeterminate)" } else { "thorough: 6 scenarios x 17 queries: every single fault at every position (validate_msg and Connection); CNAME-owner and wildcard-owner queries; full NXDOMAIN ring x every NSEC/NSEC3 swap; ALL pairs of single faults for all 17 queries of S1,S2,S3,S3b,S5 and pairs of representatives for S6; three context-reuse cases; all two-step histories of one context over 8 re-signed states of zone.tld. x 9 queries and all three-step histories over 4 denial-parameter states x 4 negative queries; Connection reply post-processing for request flags {AD,DO,CD} x upstream AD x 48 answers (Secure/Insecure/Bogus/Indeterminate)" },
             "scenarios": run.hiers.iter().take(nh).chain(run.hiers.iter().skip(sx)).map(|h| h.name).collect::<Vec<_>>(),
             "query_plans": plan.len(),
             "cases": cases.len() as u64 + n_pairs.load(AO::Relaxed),
@@ -3122,10 +3541,15 @@ fn main() {
             "upstream_query_budget": BUDGET,
             "context_reuse_across_rrsig_expiry": expiry_json,
             "context_reuse_other": reuse_json,
+            "histories_zone_re_signed": {"states": run.hiers[hist0..].iter().map(|h| h.name).collect::<Vec<_>>(), "queries": hq.len(), "two_step": n_hist2, "three_step": histories.len() - n_hist2,
+                "rule": "every ordered pair (state, query) x (state', query') in which the key that signs state' is in the DNSKEY RRset of state (a validated DNSKEY RRset may be kept for its TTL); thorough adds all three-step histories over the four denial-parameter states and four negative queries"},
+            "connection_flag_product": {"answers": flag_cases.len(), "runs": flag_runs.len(), "rule": "request flags {AD,DO,CD} x upstream AD x answers that are Secure / Insecure / Bogus / Indeterminate"},
             "samples": run.stats.samples(),
         }),
         &[
             "the hierarchy is signed by the library's own signer (sign_zone / sign_rrset); its correctness is C12/C13's subject; the harness cross-checks NSEC3 hashes, key tags and DS digests with its own implementations",
+            "histories: between the validations only zone.tld. is re-signed (NSEC3 salt / iterations, NSEC<->NSEC3, records added and removed, signing key switched within a constant DNSKEY RRset); the keys of root and tld., the DS RRset and the trust anchor stay constant; a history is only judged if the key signing a later state is in the DNSKEY RRset of the first state, because a validated DNSKEY RRset may be kept for its TTL",
+            "Connection post-processing oracle (RFC 4035 3.1/3.2, RFC 6840 5.7): AD in the reply iff validated Secure and the request had AD or DO; Bogus gives SERVFAIL without records unless CD; RRSIG/NSEC/NSEC3 only with DO (or when asked for); all other records, rcode and question preserved; the CD bit of the reply is recorded as information only",
             "the validator reads the wall clock: signatures are made for [now-1d, now+1d]; expired / not-yet-valid faults are real re-signings with windows in the past / future",
             "dnssec::validator::nsec is a private module, so nsec_in_range / nsec3_in_range are exercised end-to-end (NXDOMAIN ring x every NSEC/NSEC3 of the zone) instead of as unit calls",
             "faults that need the zone's private key (re-signed NSEC3 owner / parameter changes) are judged for panic / termination only",
